@@ -7,6 +7,8 @@ package scen
 // first issue recorded under the chosen order; sanitizers mirror the map.
 
 import (
+	"net/http/httptest"
+	"github.com/Oudwins/zog/zhttp"
 	"fmt"
 	"reflect"
 	"sort"
@@ -602,6 +604,118 @@ func sortedKeysS(m map[string][]string) []string {
 	return ks
 }
 
+// Keys that END in "]" (the list-parameter convention "ids[]", used as a field's name) are ordinary keys: below
+// a record or a list item they are joined with '.', and their own items are written [i] after them.
+type c10BKInner struct {
+	Ids  []int  `zog:"ids[]" query:"ids[]" form:"ids[]"`
+	Note string `zog:"note]"`
+}
+
+type c10BK struct {
+	Ids    []int `zog:"ids[]" query:"ids[]" form:"ids[]"`
+	Filter c10BKInner
+	Rows   []c10BKInner
+}
+
+func c10BracketKeyScenario(x *mc.X) *mc.Outcome {
+	zh.Reset()
+	zh.Install(x, zh.PoolLIFO, zh.OrderFree)
+	mode := x.Choose(3, "mode") // 0 Parse from a Go map, 1 Validate, 2 Parse from a query string
+	which := x.Choose(4, "what fails")
+	inner := func() *z.StructSchema {
+		return z.Struct(z.Schema{"ids": z.Slice(z.Int().GT(0)).Min(1), "note": z.String().Min(3)})
+	}
+	s := z.Struct(z.Schema{"ids": z.Slice(z.Int().GT(0)).Min(1), "filter": inner(), "rows": z.Slice(inner())})
+	good, bad := []any{1, 2}, []any{1, -2}
+	pick := func(fail bool) []any {
+		if fail {
+			return bad
+		}
+		return good
+	}
+	var want []string
+	switch which {
+	case 0:
+		want = []string{"ids[][1]|gt"}
+	case 1:
+		want = []string{"filter.ids[][1]|gt"}
+	case 2:
+		want = []string{"filter.note]|min"}
+	default:
+		want = []string{"rows[0].ids[][1]|gt"}
+	}
+	note := func(fail bool) string {
+		if fail {
+			return "x"
+		}
+		return "long enough"
+	}
+	var m z.ZogIssueMap
+	var d c10BK
+	pmsg := func() (msg string) {
+		defer func() {
+			if r := recover(); r != nil {
+				msg = firstLine(fmt.Sprint(r))
+			}
+		}()
+		toInts := func(l []any) (o []int) {
+			for _, v := range l {
+				o = append(o, v.(int))
+			}
+			return
+		}
+		switch mode {
+		case 0:
+			m = s.Parse(map[string]any{"ids[]": pick(which == 0), "filter": map[string]any{"ids[]": pick(which == 1), "note]": note(which == 2)}, "rows": []any{map[string]any{"ids[]": pick(which == 3), "note]": "long enough"}}}, &d)
+		case 1:
+			d = c10BK{Ids: toInts(pick(which == 0)), Filter: c10BKInner{Ids: toInts(pick(which == 1)), Note: note(which == 2)}, Rows: []c10BKInner{{Ids: toInts(pick(which == 3)), Note: "long enough"}}}
+			m = s.Validate(&d)
+		default:
+			// a flat source: nested records read the same parameters; only the top-level and filter lists are sent
+			if which >= 2 {
+				return "n/a"
+			}
+			q := "ids%5B%5D=1&ids%5B%5D=2&note%5D=long+enough"
+			if which <= 1 {
+				q = "ids%5B%5D=1&ids%5B%5D=-2&note%5D=long+enough"
+			}
+			var dq struct {
+				Ids    []int `query:"ids[]"`
+				Filter struct {
+					Ids  []int  `query:"ids[]"`
+					Note string `query:"note]"`
+				}
+			}
+			m = z.Struct(z.Schema{"ids": z.Slice(z.Int().GT(0)).Min(1), "filter": inner()}).Parse(zhttp.Request(httptest.NewRequest("GET", "/?"+q, nil)), &dq)
+			want = []string{"filter.ids[][1]|gt", "ids[][1]|gt"}
+		}
+		return ""
+	}()
+	zh.Reset()
+	if pmsg == "n/a" {
+		return &mc.Outcome{Sig: "n/a"}
+	}
+	var got []string
+	for _, k := range sortedKeys(m) {
+		if k != "$first" {
+			for _, is := range m[k] {
+				got = append(got, k+"|"+is.Code)
+				if is.Path != k {
+					got = append(got, "(Path field says "+is.Path+")")
+				}
+			}
+		}
+	}
+	sort.Strings(want)
+	out := &mc.Outcome{Traces: 1, Nontrivial: true, Sig: fmt.Sprintf("bracketkey|%d|%d", mode, which)}
+	out.Sample = map[string]any{"mode": mode, "failing": which, "issues": got}
+	if pmsg != "" || !eqStrings(got, want) {
+		x.Note("fields named \"ids[]\" and \"note]\" at top level, in a nested record and in records of a list; mode %d (0 Parse from a Go map, 1 Validate, 2 Parse from a query string); failing node %d", mode, which)
+		out.Viol = append(out.Viol, &mc.Violation{Key: fmt.Sprintf("C10:keys-ending-in-bracket:%d", mode), What: "a key that ends in ']' is not joined to its parent with '.' (or its items are not written [i] after it)", Expected: fmt.Sprint(want), Observed: fmt.Sprintf("panic=%q %v", pmsg, got)})
+	}
+	return out
+}
+
 func c10Items(tier string, mk func(tier string, tags map[string]int, focus []string, deep bool, elems int) mc.Scenario) []Item {
 	var items []Item
 	deep := tier == "thorough"
@@ -680,6 +794,7 @@ func init() {
 			items = append(items, Item{Name: "issuepath", MaxDevs: -1, Run: c10IssuePathScenario})
 			items = append(items, Item{Name: "sanitize-composed-maps", MaxDevs: -1, Run: c10SanitizeComposedScenario})
 			items = append(items, Item{Name: "empty-zog-tags", MaxDevs: -1, Run: c10EmptyTagScenario})
+			items = append(items, Item{Name: "keys-ending-in-a-bracket", MaxDevs: -1, Run: c10BracketKeyScenario})
 			// keys must not depend on what earlier calls read: sequences that start with a record parsed through any front end
 			items = append(items, callsItemsOpt(tier, "C10", func(class string) bool { return strings.HasPrefix(class, "record") }, true, "depends-on-history", "nested-call-differs", "earlier-result-changed")...)
 			return items
